@@ -14,6 +14,10 @@ R06.5 dispatch of _add on Z: each formula helper is called only under the Z fact
       assumes (Z == 1 operands / equal Z).
 R06.6 arguments of inverse_mod inside the class are the Z coordinate (non-zero by the
       invariant) taken after the Z == 1 shortcut.
+R06.10 formula identity: the coordinate triple returned on every path of _add / _double is, as a
+      polynomial in the inputs (value numbering in Z[X1..Z2, a], `% p` a homomorphism), the
+      chord / tangent result in Jacobian form up to a unit scaling; paths are classified by their
+      own tests (operand identity, equal operands, opposite operands, chord).
 R06.7 __eq__ / __ne__ pairing: every class defining __eq__ defines __ne__ as its negation
       and returns NotImplemented for foreign types.
 """
@@ -220,6 +224,9 @@ def run(chk):
                key="C06|R06.6|%s" % f.node.name, detail="%s inverts a value that is not the invariant-protected Z coordinate" % f.node.name)
 
     identity_operand_rule(chk, M, "C06")
+    # ---- R06.10 the formulas themselves: ring normal form of every path of _add / _double
+    from . import formulas
+    formulas.jacobian_group_law(chk, p, "C06", "R06.10")
     # ---- R06.9 legacy Point.__add__: with equal x the choice between the identity and doubling is an
     # exact test modulo p on y1 + y2 (coordinates of legacy points are not always reduced: __mul__
     # builds Point(curve, x, -y)); raw integer equality of the points must not decide it
